@@ -32,10 +32,15 @@ func splitTrace(b []byte) (inputs []string, obs []string) {
 	return
 }
 
-func replayObs(inputs []string) []string {
+func replayObs(inputs []string) []string { return replayObsCtx(inputs, false) }
+
+// replayObsCtx replays a script; with cancelled set, the Go context carried by every sdk.Context is already cancelled (the
+// liveness of that context is a fact about the process, not about the chain)
+func replayObsCtx(inputs []string, cancelled bool) []string {
 	var buf bytes.Buffer
 	bw := bufio.NewWriter(&buf)
 	x := NewExec(bw, nil)
+	x.cancelled = cancelled
 	for _, l := range inputs {
 		x.Line(l)
 	}
@@ -129,6 +134,8 @@ func genDeterminism(g *Gen, n int) {
 		}
 		// (a) fresh instance
 		report("fresh", replayObs(inputs))
+		// (a') fresh instance whose sdk.Context carries a cancelled Go context
+		report("cancelled-go-context", replayObsCtx(inputs, true))
 		// (b) same process, after an unrelated history
 		replayObs(otherInputs)
 		report("after-unrelated", replayObs(inputs))
